@@ -79,7 +79,7 @@ def build_harness(scratch, race=False, tags="verif"):
 # TLC
 
 def tlc_cmd(module, cfg, metadir, tmpdir, workers=1, heap="3g", extra=()):
-    return ["java", "-XX:+UseParallelGC", "-Xmx" + heap, "-Xss64m", "-Djava.io.tmpdir=" + tmpdir,
+    return ["java", "-XX:+UseSerialGC", "-Xmx" + heap, "-Xss64m", "-Djava.io.tmpdir=" + tmpdir,
             "-cp", JARS, "tlc2.TLC", "-workers", str(workers), "-metadir", metadir,
             "-config", cfg] + list(extra) + [module]
 
